@@ -166,7 +166,7 @@ def run_property(prop, tier, seed, replay):
     # what the concurrency monitor found: outcomes no one-at-a-time order explains, stuck steps
     reproduced = {}
     for m in (monitor if (ok_r and ok_h) else []):
-        if m["kind"] not in cfg.get("monitor_kinds", ["NONLIN", "STUCK"]):
+        if m["kind"] not in cfg.get("monitor_kinds", ["NONLIN", "STUCK", "VANISH"]):
             continue
         cls = m["class"]
         kf = [k for k in known if k.get("class") == cls] if (m["kind"] == "NONLIN" and cfg.get("known_classes")) else []
